@@ -32,6 +32,12 @@ type bigVal struct {
 	ID  int
 	Pad [25]uint64
 }
+type tailVal struct {
+	Kind uint64
+	Name string
+	ID   int
+	P    *int
+}
 type richVal struct {
 	P *int
 	L []string
@@ -99,6 +105,18 @@ func withVT(name string, f func(build func(kind string, raw []RawKey) TreeDriver
 				return -1
 			}
 			return *v.P
+		}}
+		f(func(k string, r []RawKey) TreeDriver { return NewDriverV(k, r, vt) })
+	case "tail":
+		// a value wider than a word whose FIRST word is the same for every value: what distinguishes two values lies behind it
+		vt := valType[tailVal]{"tail", func(i int) tailVal {
+			x := i
+			return tailVal{Kind: 0xC0FFEE, Name: "t" + strconv.Itoa(i), ID: i, P: &x}
+		}, func(v tailVal) int {
+			if v.Kind != 0xC0FFEE || v.P == nil || *v.P != v.ID || v.Name != "t"+strconv.Itoa(v.ID) {
+				return -1
+			}
+			return v.ID
 		}}
 		f(func(k string, r []RawKey) TreeDriver { return NewDriverV(k, r, vt) })
 	default:
